@@ -42,7 +42,8 @@ func (f fileInfo) ExternalPath() string { return f.external }
 func (a ann) real() bufanalysis.FileAnnotation {
 	var fi bufanalysis.FileInfo
 	if !a.NoFile {
-		fi = fileInfo{a.Path, a.Path}
+		// the internal path differs from the external one: every rendering must show the external path
+		fi = fileInfo{"internal-root/" + a.Path, a.Path}
 	}
 	return bufanalysis.NewFileAnnotation(fi, a.SL, a.SC, a.EL, a.EC, a.Type, a.Msg, a.Plugin)
 }
